@@ -73,7 +73,12 @@ fn main() {
         std::process::exit(3);
     }
     let thorough = args.iter().any(|a| a == "thorough");
-    let r = match args[1].as_str() {
+    // the harnesses unwrap() every step that succeeds on the unchanged tree: a panic is therefore a failed expectation about the code under test
+    // (reported as a violation with the panic message as the failing step), not a crash of the check
+    static PANIC_MSG: std::sync::Mutex<String> = std::sync::Mutex::new(String::new());
+    std::panic::set_hook(Box::new(|info| { if std::thread::current().name() == Some("main") || PANIC_MSG.lock().map(|m| m.is_empty()).unwrap_or(false) { if let Ok(mut m) = PANIC_MSG.lock() { *m = info.to_string(); } } eprintln!("{info}"); }));
+    let name = args[1].clone();
+    let r = std::panic::catch_unwind(std::panic::AssertUnwindSafe(|| match name.as_str() {
         "c09_version" => c09::version(thorough),
         "c09_api" => c09::api(thorough),
         "c09_ids" => c09::ids(thorough),
@@ -104,7 +109,16 @@ fn main() {
             eprintln!("unknown check {other}");
             std::process::exit(3);
         }
-    };
+    }));
+    let r = match r { Ok(r) => r, Err(_) => {
+        let mut rep = Report::new("(the harness stopped at a step that succeeds on the unchanged tree)", "-");
+        rep.evaluations = 1;
+        let msg: String = PANIC_MSG.lock().map(|m| m.chars().take(1500).collect()).unwrap_or_default();
+        // resource exhaustion of the machine is not a statement about the code under test: the check is undecided then
+        if ["No space left", "Too many open files", "Cannot allocate memory", "Resource temporarily unavailable", "os error 28", "os error 24", "os error 12", "os error 11"].iter().any(|x| msg.contains(x)) { eprintln!("harness: resource exhaustion: {msg}"); std::process::exit(3); }
+        rep.violation("harness_step_failed", "a step of the harness that succeeds on the unchanged tree (an unwrap/expect on a result of the code under test, or on a file it wrote) failed", msg.clone(), "the step succeeds".into(), msg);
+        rep
+    } };
     let viol: Vec<String> = r
         .violations
         .iter()
